@@ -48,6 +48,11 @@ impl Stats {
     pub fn observe<T: Hash>(&mut self, s: &T) {
         self.distinct.insert(hash_of(s));
     }
+    /// (signature, summary) of the violations recorded (for replays of whole phases)
+    pub fn violations_as_pairs(&self) -> Vec<(String, String)> {
+        self.violations.iter().map(|v| (v.signature.clone(), v.summary.clone())).collect()
+    }
+
     pub fn violation(&mut self, v: Violation) {
         // keep the first few of each signature
         let same = self
